@@ -118,10 +118,111 @@ def run_e1c(chk, F):
     chk.expect_count('E1c', 'assignment operators', n, 40)
 
 
+def run_bounded_reads(chk, F):
+    """E5: every read from the caller's buffer in deserialize / rec_deserialize is dominated by a decision on the
+    remaining length (a comparison involving buffer_size or an end pointer)"""
+    READS = ('deserialize_value_from_char_buffer', 'deserialize_filtration_value', 'deserialize_trivial', 'memcpy')
+    n = 0
+    for name in ('deserialize', 'rec_deserialize'):
+        fs = [f for f in F.funcs(name, cls='Simplex_tree', unit='st_pat') if f['inst'] in (0, 2)]
+        for f in fs:
+            if not ir.contains(f['body'], lambda y: ir.is_call(y) and (ir.call_name(y) in READS or
+                                                                       ir.show(ir.callee_expr(y)) in READS)):
+                continue
+            n += 1
+
+            def cl(x):
+                if ir.is_call(x) and (ir.call_name(x) in READS or ir.show(ir.callee_expr(x)) in READS):
+                    return ['READ']
+                return []
+            ps = paths.enumerate_paths(f, cl, loop_mode='1', keep_conds=True)
+            bad = None
+            for p in ps:
+                bounded = False
+                for tag, node in p.events:
+                    if tag == '?' and not isinstance(node[0], tuple):
+                        t = ir.show(node[0])
+                        if ('buffer_size' in t or 'buffer_end' in t or 'end' in t.split('(')[0]) and \
+                                any(op in t for op in ('<', '>')):
+                            bounded = True
+                    elif tag == 'READ' and not bounded and bad is None:
+                        bad = node
+            chk.ob('E5-bounded-read', 'Simplex_tree::%s checks the remaining length before reading the buffer'
+                   % name, '%s:%d' % (rel(f['file']), f['line']), bad is None,
+                   '' if bad is None else 'the read at line %s is not dominated by any comparison with the buffer '
+                   'length: a truncated buffer is read past its end before the final length test can throw'
+                   % bad.get('l'), key='E5|Simplex_tree::%s|unbounded-read|%d' % (name, len(f['params'])))
+    chk.expect_count('E5-bounded-read', 'deserialisation functions reading the buffer', n, 2)
+
+
+def run_static_state(chk, F):
+    """E6a: independent objects on different threads: every variable of static storage duration in the two class
+    families is const / constexpr / thread_local / of an empty type, or in the allow-list with its reason"""
+    n = 0
+    for v in F.staticvars:
+        if v['const'] or v['constexpr']:
+            continue
+        n += 1
+        allow = TABLE['static_state_allowed'].get(v['qual'])
+        ok = v['tls'] or v.get('emptytype') or allow is not None
+        chk.ob('E6a-static-state', 'static %s is thread-safe to share between independent objects' % v['qual'],
+               '%s:%d' % (rel(v['file']), v['line']), ok,
+               'thread_local' if v['tls'] else ('empty type' if v.get('emptytype') else (allow or
+               'mutable state of static storage duration (not const, not thread_local): independent objects used '
+               'from different threads race on it')), key='E6a|%s' % v['qual'])
+    chk.expect_count('E6a-static-state', 'non-const static-duration variables', n, 8)
+
+
+def run_settings_alias(chk, F):
+    """E10: a copy never keeps or hands on the source's settings pointer: it may only dereference it for a deep copy
+    or use it as the fallback when the caller supplies no new settings"""
+    n = 0
+    for c in F.classes:
+        if c['inst'] not in (0, 2) or c['unit'] != 'mx_pat':
+            continue
+        for fn in e1.class_functions(F, c):
+            kind = copy_like(c, fn)
+            if kind not in ('copy_ctor', 'copy_ctor+'):
+                continue
+            src = fn['params'][0]['n']
+            nodes = []
+            for i in fn.get('inits', []) or []:
+                nodes.append(i.get('init'))
+            nodes.append(fn.get('body'))
+            for root in nodes:
+                if root is None:
+                    continue
+                par = ir.parents(root)
+                for x in ir.walk(root):
+                    if x.get('k') in ir.MEMBER_KINDS and x.get('n') == 'colSettings_' and x.get('c') and \
+                            ir.show(x['c'][0]) == src:
+                        n += 1
+                        p = par.get(id(x))
+                        while p is not None and p.get('k') in ir.CAST_KINDS + ('ParenExpr',):
+                            p = par.get(id(p))
+                        ok = False
+                        why = ''
+                        q = p
+                        while q is not None:
+                            if q.get('k') == 'UnaryOperator' and q.get('op') == '*':
+                                ok, why = True, 'dereferenced for a deep copy'
+                                break
+                            if q.get('k') == 'ConditionalOperator' and 'nullptr' in ir.show(q['c'][0]):
+                                ok, why = True, 'fallback when no new settings are supplied'
+                                break
+                            q = par.get(id(q))
+                        chk.ob('E10-settings', '%s copy: %s.colSettings_ is not aliased' % (c['name'], src),
+                               '%s:%s' % (rel(fn['file']), x.get('l')), ok,
+                               why if ok else 'the copy stores or passes on the source object\'s settings pointer: '
+                               'the two objects share field operators and entry pool, destroying one breaks the other',
+                               key='E10|%s::%s|settings-alias' % (c['name'], kind))
+    chk.expect_count('E10-settings', 'uses of the source settings pointer in copy constructors', n, 4)
+
+
 def run(tier, replay=None):
     chk = Check('C15', tier,
                 'Static decision of structural clauses of C15 on the template patterns of Simplex_tree and '
-                'Persistence_matrix: (E1) every hand-written copy/move constructor, copy/move assignment and friend '
+                'Persistence_matrix (plus bounded deserialisation reads, the static-state inventory and settings aliasing): (E1) every hand-written copy/move constructor, copy/move assignment and friend '
                 'swap takes every non-empty data member and base sub-object from its source; (E1b) move constructor '
                 'and move assignment reset the same source fields; (E1c) no assignment operator flows off its end. '
                 'Decides these clauses, not observational equality of round trips.',
@@ -132,6 +233,9 @@ def run(tier, replay=None):
     chk.count('classes parsed', len(F.classes))
     run_e1(chk, F)
     run_e1c(chk, F)
+    run_bounded_reads(chk, F)
+    run_static_state(chk, F)
+    run_settings_alias(chk, F)
     chk.assumptions += ['clang 14 parser/Sema', 'template patterns analysed (all if-constexpr arms present)',
                         'exemption table tables/c15.json (one named symbol + reason each)']
     return chk
